@@ -17,6 +17,9 @@ SPEC = tlc.SPECS / "cache"
 INVS = ["InvCapacity", "InvDirtyDurable"]
 DEVIATIONS = {"load_inserts_without_recheck": "InvCapacity", "load_overwrites_dirty_page": "InvDirtyDurable"}
 KNOWN_CODES = {1: "load_inserts_without_recheck", 2: "load_overwrites_dirty_page"}
+# as-code behaviours that break no contract clause (crash only): modelled while the finding is open
+AS_CODE_DEVS = ("evict_double_delete",)
+ALL_DEVS = tuple(DEVIATIONS) + AS_CODE_DEVS
 LIGHT_JVM = {"_JAVA_OPTIONS": "-XX:TieredStopAtLevel=1 -XX:ParallelGCThreads=2 -XX:CICompilerCount=1"}
 
 
